@@ -1932,6 +1932,11 @@ class VM:
                 def bound(*call_args):
                     return fn(bound_this, *bound_args, *call_args)
 
+                inner = getattr(fn, "_js_name", None)
+                if inner is not None:
+                    bound._js_name = "bound " + inner
+                    bound._js_bound_count = len(bound_args)
+
             else:
 
                 target = self._for_receiver(fn, bound_this) if args else fn
@@ -2881,6 +2886,14 @@ class VM:
             self._invoke_js_function(callee, args, this_val or UNDEFINED)
         elif callable(callee):
             # Native function
+            from .values import JSBoundMethod
+
+            if isinstance(callee, JSBoundMethod):
+                # A prototype method (Object.prototype.hasOwnProperty ...) called
+                # without a receiver: its this is undefined
+                result = callee(UNDEFINED, *args)
+                self.stack.append(result if result is not None else UNDEFINED)
+                return
             if getattr(callee, "_js_factory", None) is not None:
                 # var push = [].push; push(1): a method of a built-in kind called
                 # without a receiver has nothing to work on
